@@ -531,6 +531,11 @@ class Module(ABC):
         mask_inds = self._bool_to_global_index(idx, self.nodes[f"global_{key}_index"])
         if mask_inds is not None:
             idx, scope = mask_inds, "global"
+        if isinstance(idx, slice):
+            # A slice selects index values; negative bounds count from the largest
+            # index of this level in view (not from the number of compartments).
+            largest = int(self.nodes[scope + f"_{key}_index"].max())
+            idx = np.arange(largest + 1)[idx]
         idx = self._reformat_index(idx)
         idx = self.nodes[scope + f"_{key}_index"] if is_str_all(idx) else idx
         where = self.nodes[scope + f"_{key}_index"].isin(idx)
